@@ -337,7 +337,13 @@ pub fn check_single(c: &SingleCase, which: Which) -> (Verdict, Option<StepInfo>)
         m.trigger_key_interrupt();
     }
     let mut r = model_of(&st, &m);
+    // one case in eight: the continue key is pressed on the running machine at one of the first
+    // edges of the instruction (no-op by its documentation: same result, same number of edges)
+    if !c.assembly && c.ram_seed >> 61 == 5 {
+        SPURIOUS_CONTINUE.with(|s| s.set(Some((c.ram_seed >> 56 & 15) as usize)));
+    }
     let (end, info) = lockstep_irq(&mut m, &mut r, c.assembly, which, irq);
+    SPURIOUS_CONTINUE.with(|s| s.set(None));
     match end {
         StepEnd::Mismatch(sig, d) => (Verdict::Fail(sig, d), Some(info)),
         _ => (Verdict::Pass, Some(info)),
